@@ -44,6 +44,11 @@ def worker_env():
     return env
 
 
+# a shard that is still running after this long is killed and reported as a harness error (exit 2): a hang in the
+# code under test must not hang the check, and it is not a verdict either
+HARD_SHARD_TIMEOUT = {"quick": 3600, "thorough": 6 * 3600}
+
+
 def run_worker(prop, mode, shard, seed, out, extra=(), timeout=None):
     cmd = [
         PY,
@@ -173,6 +178,8 @@ def _main(argv, holder):
     for s in shards:
         if "examples" in s:
             s["examples"] = max(1, int(s["examples"] * a.scale))
+        if "runs" in s:
+            s["runs"] = max(1, int(s["runs"] * a.scale))
     wall_budget = float(getattr(mod, "WALL_BUDGET", {}).get(a.tier, 0) or 0)
     results = []
     with cf.ThreadPoolExecutor(max_workers=a.jobs) as ex:
@@ -180,7 +187,7 @@ def _main(argv, holder):
         futs2 = [
             ex.submit(run_worker, prop, "collect", s, seed,
                       os.path.join(work, f"shard_{i}.json"),
-                      ["--wall", str(wall_budget)], None)
+                      ["--wall", str(wall_budget)], HARD_SHARD_TIMEOUT[a.tier])
             for i, s in enumerate(shards)
         ]
         for f in futs:
